@@ -125,13 +125,15 @@ def _harness_exec(args, timeout, e):
             raise ToolError("harness timed out: %s" % (args,))
         if p.returncode == 0:
             return p
-        if p.returncode != 1:
+        # the process was ended by the code under test: exit 1 (the library's hook), or killed by SIGABRT / SIGSEGV / SIGBUS /
+        # SIGILL (allocation failure, stack overflow of a library thread, abort): all of these are data about the case in flight
+        if p.returncode not in (1, -6, -11, -7, -4, 134, 139):
             raise ToolError("harness %s exited with %d\n%s\n%s" % (args, p.returncode, p.stdout[-2000:], p.stderr[-2000:]))
         try:
             with open(obs_path + ".done") as f:
                 done = int(f.read().strip() or 0)
         except (OSError, ValueError):
-            raise ToolError("harness %s exited with 1 before it started a case\n%s" % (args, p.stderr[-2000:]))
+            raise ToolError("harness %s exited with %d before it started a case\n%s" % (args, p.returncode, p.stderr[-2000:]))
         if done >= ncases:
             return p
         cases = read_ndjson(cases_path)
